@@ -677,6 +677,10 @@ func (tdsChan *Channel) WritePacket(packet *Packet) {
 			if tdsChan.queueRx.IsEOM() {
 				// And queue is EOM - reset queue
 				tdsChan.queueRx.Reset()
+				// The message is complete. Whether the next message
+				// ends with a final DonePackage must not be judged by
+				// the last package of this one.
+				tdsChan.lastPkgRx = nil
 			} else {
 				// Roll back position and return.
 				tdsChan.queueRx.SetPosition(curPacket, curData)
